@@ -215,7 +215,7 @@ def applyCfg (T : Tables) (v : AccView) (cfg : PropMap) : AccView :=
 def mainUnitOf (views : List (Name × AccView)) : Option String :=
   match aget? views "value" with
   | some v => if v.isCmd then none else match v.tree with
-    | some t => match t.props.get? "unit" with
+    | some t => match t.unitOf with
       | some u => if unquote u == "" then none else some (unquote u)
       | none => none
     | none => none
